@@ -114,6 +114,8 @@ def routesOf (s : Objs) (v : VS) : List String :=
     match s.vsrs.get? key with
     | some r => if vsrFits r v.host path then some r.md.key else none
     | none => none
+  -- a route referenced by several entries is attached once, at its first fitting reference
+  let regular := regular.foldl (fun l k => if l.contains k then l else l ++ [k]) []
   let chal := s.ings.filterMap fun kv =>
     if !isMinion kv.2 && converted s kv.2 && h0 kv.2 = v.host then some kv.2.md.key else none
   regular ++ chal
